@@ -175,4 +175,22 @@ def run(ctx):
     ctx.check("C19.Z6", "move-ordering-sorts-are-stable", not unstable and len(sorts) >= 2, fn="search::get_best_move_score", file="src/search.rs",
               what="an unstable sort orders moves with equal keys arbitrarily (implementation-defined): the principal variation can differ",
               expected="sort_by_cached_key (stable)", found=sorts)
+    # Z7: nothing but Data and a per-go flag crosses from one `go` to the next
+    from . import p14
+    go = F.fn("uci::command_go")
+    want = ["&std::sync::Arc<std::sync::Mutex<uci::Data>>", "&mut std::str::SplitAsciiWhitespace<'_>", "&std::sync::Arc<std::sync::atomic::Atomic<bool>>"]
+    ctx.check("C19.Z7", "command_go-receives-only-data-and-a-flag", go["inputs"] == want, fn=go["path"], file=go["file"],
+              what="command_go receives session state besides the Data mutex and the stop flag: state that `ucinewgame` does not reset can "
+                   "influence later searches", expected=want, found=go["inputs"])
+    before, nv = len(ctx.instances), len(ctx.violations)
+    p14.o3_o6(ctx, F, p14.closures_by_role(F))
+    keep_i = [i for i in ctx.instances[before:] if "fresh-flag-per-go" in i["instance"] or "both-threads-share" in i["instance"]]
+    keep_v = [v for v in ctx.violations[nv:] if "fresh-flag-per-go" in v["instance"] or "both-threads-share" in v["instance"]]
+    for i in keep_i:
+        i["rule"] = "C19.Z7(" + i["rule"] + ")"
+    for v in keep_v:
+        v["rule"] = "C19.Z7(" + v["rule"] + ")"
+        v["key"] = "C19.Z7|" + v["key"]
+    ctx.instances[before:] = keep_i
+    ctx.violations[nv:] = keep_v
     ctx.trust("std HashMap get/insert semantics independent of capacity history; f64::powf deterministic on one machine")
